@@ -829,7 +829,42 @@ func jsonValue(n int64, gs []group, quoted bool) string {
 	return string(b)
 }
 
+// Every case has a deadline of its own: a case that does not finish (a mutex of the real code left locked by a
+// panic, a Fatal under the package's global lock, a sync that never returns) becomes the observation (() (9)), which
+// no model run produces, instead of a harness that sits until the runner's timeout.  The goroutine of such a case is
+// abandoned (its fake server is closed); since it may hold locks of the throttle package the stream stops after it.
+const exec9Deadline = 30 * time.Second
+
+var redisHung atomic.Bool
+
 func exec9(cs hx.Sx) hx.Sx {
+	hung := hx.L(hx.L(), hx.L(hx.I(9)))
+	if redisHung.Load() {
+		return hung
+	}
+	done := make(chan hx.Sx, 1)
+	var srv atomic.Pointer[fakeRedis]
+	go func() {
+		var o hx.Sx
+		if msg := hx.Catch(func() { o = exec9body(cs, &srv) }); msg != "" {
+			o = hx.L(hx.L(), hx.L(hx.I(2)))
+		}
+		done <- o
+	}()
+	select {
+	case o := <-done:
+		return o
+	case <-time.After(exec9Deadline):
+		redisHung.Store(true)
+		if s := srv.Load(); s != nil {
+			s.close()
+		}
+		fmt.Fprintln(os.Stderr, "harness/c16: a redis case did not finish within its deadline; the redis stream stops here")
+		return hung
+	}
+}
+
+func exec9body(cs hx.Sx, srvOut *atomic.Pointer[fakeRedis]) hx.Sx {
 	it := hx.Items(cs)
 	r := &r9{
 		down: hx.Int(it[0]) != 0, client: int(hx.Int(it[1])), routing: int(hx.Int(it[2])), vf: hx.Int(it[3]) != 0,
@@ -853,12 +888,16 @@ func exec9(cs hx.Sx) hx.Sx {
 	if err := os.MkdirAll(r.dir, 0o700); err != nil {
 		panic(err)
 	}
-	defer os.RemoveAll(r.dir)
+	defer func() {
+		os.RemoveAll(r.dir)
+		os.Remove(r9Dir) // only when it is empty (a replay of one case leaves nothing behind)
+	}()
 	r.path = filepath.Join(r.dir, "limits-0.json")
 	if r.down {
 		r.addr = deadAddr()
 	} else {
 		r.srv = newFakeRedis()
+		srvOut.Store(r.srv)
 		defer r.srv.close()
 		r.addr = r.srv.addr()
 	}
@@ -1182,6 +1221,10 @@ func genRedis(c *hmain.Ctx) {
 		}
 		cs := hx.L(hx.I(b2i(down)), hx.I(client), hx.I(routing), hx.I(b2i(vf)), hx.I(count), hx.Z(interval), hx.L(rules...), hx.L(items...))
 		c.Do("plugin-redis", 9, cs, true)
+		if redisHung.Load() { // reported by the case that hung (observation (() (9))); nothing after it can be trusted
+			c.W.Count("redis_stream_stopped_after_a_hung_case")
+			break
+		}
 		switch {
 		case down:
 			c.W.Count("redis_endpoint_dead")
